@@ -141,6 +141,11 @@ def main():
         src = os.path.join(a.mdir, f)
         if os.path.exists(src) and os.path.abspath(src) != os.path.abspath(os.path.join(dst, f)):
             shutil.copy(src, os.path.join(dst, f))
+    summ = os.path.join(VERIF, "seeded", "summaries.json")
+    if os.path.exists(summ):
+        S = json.load(open(summ))
+        if a.name in S:
+            meta["summary"], meta["needs_to_manifest"] = S[a.name]
     meta.update({"property": a.prop, "name": a.name,
                  "what_ran": ["scratch worktree: demo on original (must pass), git apply, cargo test --offline (must pass), "
                               "cargo build --features serde,rayon, demo on mutant (must fail)",
